@@ -1106,6 +1106,7 @@ func (r *Resolver) executeSubscriptionHeartbeat(sub *subscriptionState) {
 		return
 	}
 
+	verifhook.Yield("sub.heartbeat.before_lock", sub.id)
 	if err := sub.sendHeartbeat(); err != nil {
 		_ = r.UnsubscribeSubscription(sub.id)
 		return
@@ -1275,11 +1276,11 @@ func (r *Resolver) getTrigger(id uint64) (*trigger, bool) {
 
 // markTriggerInitialized marks a trigger as initialized and reports it.
 func (r *Resolver) markTriggerInitialized(triggerID uint64) {
+	verifhook.Yield("trigger.init.before_store", triggerID)
 	trig, ok := r.getTrigger(triggerID)
 	if !ok {
 		return
 	}
-	verifhook.Yield("trigger.init.before_store", triggerID)
 	trig.initialized.Store(true)
 	if r.reporter != nil {
 		r.reporter.TriggerCountInc(1)
